@@ -1,7 +1,7 @@
 (* C16/Property.v — the property theorems and nothing else. *)
 From Coq Require Import String List Bool.
 Import ListNotations.
-From SM Require Import C16.Model C16.Proofs.
+From SM Require Import C16.Model C16.Proofs C16.InsertAfter.
 Open Scope string_scope.
 
 (* For every value type, every interpretation of the operators and functions,
@@ -46,3 +46,20 @@ Theorem C16_table_order :
               (match b with [] => True | p :: _ => kept P pid remove p = false end).
 Proof. exact simple_insert_shape. Qed.
 Print Assumptions C16_table_order.
+
+(* derived table with caller-chosen positions (insert_after): whenever a table is produced, the untouched base
+   parameters are exactly the kept ones in their original order and every new parameter occurs exactly once; a
+   group naming something that is not a new parameter is refused (None = the ValueError of the implementation) *)
+Theorem C16_insert_after_order :
+  forall (P : Type) (pid : P -> string) remove group (isnew : P -> bool) pars ins l,
+  insert_after P pid remove group pars ins = Some l ->
+  Forall (fun p => isnew p = true) ins -> Forall (fun p => isnew p = false) pars ->
+  filter (fun p => negb (isnew p)) l = filter (InsertAfter.kept P pid remove) pars /\ Permutation.Permutation (filter isnew l) ins.
+Proof. intros P pid remove group isnew. apply insert_after_shape. Qed.
+Print Assumptions C16_insert_after_order.
+
+Theorem C16_insert_after_unknown_refused :
+  forall (P : Type) (pid : P -> string) remove group pars ins n rest,
+  group ""%string = (n :: rest)%list -> (forall p, In p ins -> pid p <> n) -> insert_after P pid remove group pars ins = None.
+Proof. intros P pid remove group. apply unknown_name_refused. Qed.
+Print Assumptions C16_insert_after_unknown_refused.
